@@ -214,6 +214,9 @@ func (cr *checkRun) extraChecks(verif string) {
 	case "C14", "C16", "C17":
 		cr.statelessCheck([]string{"github.com/akalin/gopar/par1", "github.com/akalin/gopar/par2", "github.com/akalin/gopar/rsec16", "github.com/akalin/gopar/gf2p16", "github.com/akalin/gopar/gf2"})
 	}
+	if cr.prop == "C17" {
+		cr.orderCheck([]string{"github.com/akalin/gopar/par2::create", "github.com/akalin/gopar/par1::create"})
+	}
 	switch cr.prop {
 	case "C02", "C14":
 		// Verify modifies nothing: no write primitive and no fileIO.WriteFile is reachable from verify
